@@ -375,6 +375,37 @@ print(json.dumps(res))
         if any(v != vals[0] for v in vals[1:]) or vals[0] is None:
             out["bad"].append({"operator": "gradient of %s" % n_, "fault": "other configurations of the same primitive differentiated earlier in the process",
                                "problems": ["%s: %s" % (k_, str(v_)[:160]) for k_, v_ in variants.items()], "site": {"oracle": "operator-history"}})
+    # ---- one pull-back (and one push-forward) object, called again after other differentiations: the same answer ----
+    from autograd import make_vjp as _mv9, make_jvp as _mj9
+    x66 = onp.arange(36.0).reshape(6, 6) / 7.0 + onp.eye(6)
+    w66_ = onp.cos(onp.arange(36.0)).reshape(6, 6)
+    reuse = {"gradient": lambda z: anp.gradient(z)[0] * w66_, "gradient axis=1": lambda z: anp.gradient(z, axis=1) * w66_,
+             "pad": lambda z: anp.pad(z, 1, mode="constant"), "sort": lambda z: anp.sort(z, axis=0), "cumsum": lambda z: anp.cumsum(z, axis=1),
+             "einsum": lambda z: anp.einsum("ij,jk->ik", z, w66_), "tensordot": lambda z: anp.tensordot(z, w66_, ([0], [1])),
+             "fft": lambda z: anp.real(anp.fft.fft(z, axis=0)), "rfft": lambda z: anp.real(anp.fft.rfft(z, axis=1)), "roll": lambda z: anp.roll(z, 2, axis=1),
+             "repeat": lambda z: anp.repeat(z, 2, axis=0), "max": lambda z: anp.max(z, axis=1), "concatenate": lambda z: anp.concatenate([z, 2.0 * z], axis=1),
+             "diff": lambda z: anp.diff(z, axis=0), "norm": lambda z: anp.linalg.norm(z, axis=0), "solve": lambda z: anp.linalg.solve(z, w66_)}
+    for nm_, f_ in reuse.items():
+        out["n"] += 1
+        out["keys"].append("pullback-reuse|" + nm_)
+        try:
+            pull, y_ = _mv9(f_)(x66)
+            g_ = onp.sin(onp.arange(onp.size(y_), dtype=float)).reshape(onp.shape(y_))
+            r1 = onp.array(pull(g_))
+            _mv9(lambda z: anp.sum(f_(z * 2.0)))(x66)[0](1.0)          # an unrelated differentiation through the same primitive
+            r2 = onp.array(pull(g_))
+            r3 = onp.array(pull(2.0 * g_)) / 2.0
+            push = _mj9(f_)(x66)
+            t1 = onp.array(push(w66_)[1])
+            t2 = onp.array(push(w66_)[1])
+            if not (onp.array_equal(r1, r2) and onp.allclose(r1, r3, rtol=1e-12, atol=1e-12) and onp.array_equal(t1, t2)):
+                out["bad"].append({"operator": "pull-back / push-forward of %s called again" % nm_, "fault": "second call after another differentiation",
+                                   "problems": ["first call %s..., second %s..., half of the call with 2g %s..." % (r1.ravel()[:3].tolist(), r2.ravel()[:3].tolist(), r3.ravel()[:3].tolist())],
+                                   "site": {"oracle": "operator-history"}})
+        except NotImplementedError:
+            pass
+        except Exception as ex:
+            out["bad"].append({"operator": "pull-back / push-forward of %s called again" % nm_, "fault": "repeated call", "problems": ["raised %r" % (ex,)], "site": {"oracle": "operator-history"}})
     # ---- short-lived function objects: an operator applied to a function that is garbage-collected right away, many
     #      times over, with functions of other signatures in between (object ids are reused): every answer is the one a
     #      fresh interpreter gives ----
